@@ -434,15 +434,11 @@ pub fn supervise(a: &HashMap<String, String>) -> i32 {
             harness_errors.push(format!("run {}: {} {}", vl.idx, v.class, v.detail));
             continue;
         }
-        // a hardware fault is C03's oracle (and C15's when it is a store to the read-only input mapping);
-        // in any other property's check it means the run could not be judged: harness error, not a finding
+        // a call that kills the process neither returns what the isolated call returns nor panics: every claimed
+        // property of the form "every call does X" is violated by it (primarily C03's business, and reported there
+        // with the sanitizer's or the guard page's diagnosis)
         let class = if is_crash {
-            if prop == "C03" || prop == "C15" || prop == "C13" || prop == "C07" {
-                format!("{}.{}", own_prefix, v.class.replace("crash.", "process-"))
-            } else {
-                harness_errors.push(format!("run {}: {} (outside the oracle of {}; see C03): {}", vl.idx, v.class, prop, v.detail));
-                continue;
-            }
+            format!("{}.{}", own_prefix, v.class.replace("crash.", "process-"))
         } else if own {
             v.class.clone()
         } else {
